@@ -85,6 +85,24 @@ def fit_variants(c):
     for j in reversed(range(len(Xs))):
         n.partial_fit(Xs[j], Ys[j], warmup=w)
     out["partial_each_reversed"] = raw(n.fit())
+    # a fit that fails on a malformed later sequence, then the same node is refitted: nothing of the
+    # failed attempt may be counted
+    if len(Xs) >= 2:
+        n = node()
+        bad = r.randint(1, len(Xs) - 1)
+        Xbad = [x if i != bad else np.hstack([x, x[:, :1]]) for i, x in enumerate(Xs)]
+        try:
+            n.fit(Xbad, Ys, warmup=w)
+            out["after_failed_fit"] = None       # a malformed sequence must be rejected
+        except Exception:  # noqa
+            out["after_failed_fit"] = raw(n.fit(Xs, Ys, warmup=w))
+        n = node()
+        Ybad = [y if i != bad else np.hstack([y, y[:, :1]]) for i, y in enumerate(Ys)]
+        try:
+            n.fit(Xs, Ybad, warmup=w)
+            out["after_failed_fit_targets"] = None
+        except Exception:  # noqa
+            out["after_failed_fit_targets"] = raw(n.fit(Xs, Ys, warmup=w))
     if len({len(x) for x in Xs}) == 1:
         out["array3d"] = raw(node().fit(np.stack(Xs), np.stack(Ys), warmup=w))
     if w == 0:
@@ -111,6 +129,9 @@ def check_present(ctx, c):
     scale = max(1.0, float(np.max(np.abs(ref))))
     res = []
     for k, v in sols.items():
+        if v is None:
+            res.append(("oracle", f"'{k}': a dataset with a malformed sequence (one extra column) was accepted by fit"))
+            return ob, res
         if v.shape != ref.shape or not np.allclose(v, ref, rtol=0, atol=1e-8 * scale):
             dd = float(np.max(np.abs(v - ref))) if v.shape == ref.shape else "shape"
             res.append(("oracle", f"presenting the same retained timesteps as '{k}' gives a different solution than as a list of sequences "
@@ -226,7 +247,7 @@ def gen_esn(g, heavy):
     backends = [None, "sequential", "threading", "threading", "multiprocessing"] + (["loky"] if heavy else [])
     return {"kind": "esn", "units": g.randint(5, 9), "K": K, "lens": [g.randint(8, 20) for _ in range(K)],
             "workers": g.choice([2, 3, -1, -2, -3, 1]), "backend": g.choice(backends), "feedback": g.chance(0.3),
-            "warmup": g.choice([0, 0, 2]), "seed": g.randint(0, 10 ** 6), "dseed": g.randint(0, 10 ** 6)}
+            "warmup": g.choice([0, 2, 3]), "seed": g.randint(0, 10 ** 6), "dseed": g.randint(0, 10 ** 6)}
 
 
 def esn_data(c):
@@ -252,12 +273,25 @@ def run_esn(c):
         ev = tr.events()
     W = np.vstack([e.readout.bias, e.readout.Wout])
     outs = e.run(Xs)
+    # independent reference (no feedback): every sequence run from the zero state through a copy of the
+    # reservoir, then a plain Ridge fitted on those states with the same warm-up
+    Wind = None
+    if not c["feedback"]:
+        import copy as _copy
+        from reservoirpy.nodes import Ridge
+        states = []
+        for x in Xs:
+            rr = _copy.deepcopy(ref.reservoir)
+            rr.reset()
+            states.append(rr.run(x))
+        ro = Ridge(1, ridge=1e-3).fit(states, Ys, warmup=c["warmup"])
+        Wind = np.vstack([ro.bias, ro.Wout])
     # the same dataset in another order, sequentially
     perm = list(np.random.default_rng(c["dseed"] + 1).permutation(len(Xs)))
     p = mk(1, "sequential")
     p.fit([Xs[i] for i in perm], [Ys[i] for i in perm], warmup=c["warmup"])
     Wp = np.vstack([p.readout.bias, p.readout.Wout])
-    return {"Wref": Wref, "W": W, "Wp": Wp, "out_ref": out_ref, "outs": outs, "events": ev}
+    return {"Wref": Wref, "W": W, "Wp": Wp, "Wind": Wind, "out_ref": out_ref, "outs": outs, "events": ev}
 
 
 def check_esn(ctx, c):
@@ -272,6 +306,9 @@ def check_esn(ctx, c):
     if not np.allclose(o["W"], o["Wref"], rtol=0, atol=1e-8 * scale):
         res.append(("oracle", f"ESN.fit with workers={c['workers']} backend={c['backend']} gives a different solution than the sequential fit "
                               f"(max difference {float(np.max(np.abs(o['W'] - o['Wref']))):.3g}, largest weight {scale:.3g})"))
+    if o["Wind"] is not None and not np.allclose(o["Wref"], o["Wind"], rtol=0, atol=1e-7 * scale):
+        res.append(("oracle", f"ESN.fit (sequential, warmup={c['warmup']}) is not the ridge solution on the retained timesteps of the per-sequence reservoir states "
+                              f"(plain Ridge on the same states with the same warm-up differs by {float(np.max(np.abs(o['Wref'] - o['Wind']))):.3g})"))
     if not np.allclose(o["Wp"], o["Wref"], rtol=0, atol=1e-8 * scale):
         res.append(("oracle", f"ESN.fit on the same sequences in another order gives a different solution (max difference {float(np.max(np.abs(o['Wp'] - o['Wref']))):.3g})"))
     a, b = o["out_ref"], o["outs"]
